@@ -61,6 +61,15 @@ FIX = {
     ("        return '{} {};\\n'.format(self.type, self.name )\r\n",
      "        from py4hw.rtl_generation import getValidVerilogName\r\n        return '{} {};\\n'.format(self.type, getValidVerilogName(self.name))\r\n"),
  ]),
+ # the memories' hand-written bodies name the clock like the header does (the block may have its own clock domain)
+ 'memory-body-hardcoded-clock': ('py4hw/logic/storage.py', [
+    ("        s += f'reg [{w-1}:0] rreaddata;\\n'\r\n        s += 'always @(posedge clk) begin\\n'\r\n",
+     "        s += f'reg [{w-1}:0] rreaddata;\\n'\r\n        clkname = getObjectClockDriver(self).name  # the name createModuleHeader gives the clock port\r\n        s += f'always @(posedge {clkname}) begin\\n'\r\n"),
+    ("        s += f'reg [{w-1}:0] rreaddata_b;\\n'\r\n\r\n        s += 'always @(posedge clk) begin\\n'\r\n",
+     "        s += f'reg [{w-1}:0] rreaddata_b;\\n'\r\n\r\n        clkname = getObjectClockDriver(self).name  # the name createModuleHeader gives the clock port\r\n        s += f'always @(posedge {clkname}) begin\\n'\r\n"),
+    ("        s += 'end\\n'\r\n\r\n        s += 'always @(posedge clk) begin\\n'\r\n        s += 'if (write_b) \\n'\r\n",
+     "        s += 'end\\n'\r\n\r\n        s += f'always @(posedge {clkname}) begin\\n'\r\n        s += 'if (write_b) \\n'\r\n"),
+ ]),
  'empty-concatenation': (RTL, [
     ("def InlineConcatenateMSBF(obj:Logic):\r\n    str = '' # \"# MSBF \\n\"\r\n    w = len(obj.ins)\r\n",
      "def InlineConcatenateMSBF(obj:Logic):\r\n    str = '' # \"# MSBF \\n\"\r\n    w = len(obj.ins)\r\n"
